@@ -24,6 +24,7 @@ HARNESS = {
     "shim_opt_cond": dict(kind="shim", proved=False, fns=["nom::combinator::opt", "nom::combinator::cond", "nom::combinator::map"], bound="input <= 3 bytes, cheap element parser"),
     "shim_length_count": dict(kind="shim", proved=False, fns=["nom::multi::length_count"], bound="input <= 4 bytes, counts 0..3, cheap element parser (all result classes)"),
     "shim_alt": dict(kind="shim", proved=False, fns=["nom::branch::alt"], bound="input <= 4 bytes, two cheap branches (all result classes)"),
+    "shim_be64": dict(kind="fd", proved=True, fns=["nom::number::streaming::be_u64"], bound="10-byte buffer, symbolic length (the function reads <= 8 bytes)"),
     "shim_verify": dict(kind="shim", proved=False, fns=["nom::combinator::verify"], bound="input <= 4 bytes, cheap element parser, predicate threshold full domain"),
     "shim_pair": dict(kind="shim", proved=False, fns=["nom::sequence::pair"], bound="input <= 4 bytes, cheap element parser (all result classes, non-consuming success included)"),
     "shim_map_parser": dict(kind="shim", proved=False, fns=["nom::combinator::map_parser"], bound="input <= 5 bytes, count usize full domain, cheap inner parser"),
@@ -237,12 +238,12 @@ PROPS = {
     ),
     "C14": dict(
         level="model_checking",
-        level_text="Framing, unbounded (Verus, unit sct, on the real closure-free bodies): the single-SCT parser is the content parser's verdict on EXACTLY the declared u16 window, consuming exactly one length-prefixed entry; the list parser is the explicit accumulate-while-Ok loop of the single-entry parser over EXACTLY the declared list window (entries in wire order, an entry or list longer than its container never yields an SCT). Content decode: Kani contract harness - single SCT entry (u16 prefix, version, 32-byte log id by pointer, be64 timestamp over the full range, u16 extensions, hash/signature bytes, u16 signature, exact consumption; a field cut off by the entry length never yields an SCT) on inputs <= 52 bytes; list framing (u16 total, confinement, entry longer than the list / list longer than the input never yields an SCT) on short inputs. Bounded in input length; the n-entry in-order clause rests on the many0 shim contract (Kani shim_many0).",
-        level_note="The field-by-field decode of one SCT is bounded model checking (input <= 52 bytes), not proof; the framing/ordering part is a Verus proof relative to the nom shim contracts (map_parser, length_data, take, many0, complete: Kani shim_* harnesses, bounded) and to 'fun_of(parse_ct_signed_certificate_timestamp) is the function it computes'. R11 (operand of `?` bound to a local) is applied to the list parser.",
-        technique="contract-based deductive verification: Verus on the extracted entry/list framing (unbounded) + Kani contract harness for the SCT content decode (bounded)",
-        verus=["sct"],
+        level_text="Framing, unbounded (Verus, unit sct, on the real closure-free bodies): the single-SCT parser is the content parser's verdict on EXACTLY the declared u16 window, consuming exactly one length-prefixed entry; the list parser is the explicit accumulate-while-Ok loop of the single-entry parser over EXACTLY the declared list window (entries in wire order, an entry or list longer than its container never yields an SCT). Content decode, unbounded as well (Verus, unit sct_content): version = byte 0, log id = bytes 1..33, timestamp = the big-endian u64 at 33, extensions = the u16-prefixed field at 41, then hash byte, signature byte and the u16-prefixed signature, remainder = what follows, every truncation Incomplete - for every input length. Cross-check on the compiled code: Kani contract harness - single SCT entry (u16 prefix, version, 32-byte log id by pointer, be64 timestamp over the full range, u16 extensions, hash/signature bytes, u16 signature, exact consumption; a field cut off by the entry length never yields an SCT) on inputs <= 52 bytes; list framing (u16 total, confinement, entry longer than the list / list longer than the input never yields an SCT) on short inputs. Bounded in input length; the n-entry in-order clause rests on the many0 shim contract (Kani shim_many0).",
+        level_note="The field-by-field decode of one SCT is a Verus proof relative to be_u64 (Kani shim_be64) and to 'try_into of the 32 taken bytes is the same 32 bytes' (parse_log_id is external_body: slice-to-array conversion is outside the subset; Kani leaf_sct_entry asserts the log id by pointer), repeated by bounded model checking (input <= 52 bytes) on the compiled code; the framing/ordering part is a Verus proof relative to the nom shim contracts (map_parser, length_data, take, many0, complete: Kani shim_* harnesses, bounded) and to 'fun_of(parse_ct_signed_certificate_timestamp) is the function it computes'. R11 (operand of `?` bound to a local) is applied to the list parser.",
+        technique="contract-based deductive verification: Verus on the extracted entry/list framing (unbounded) and content decode (unbounded) + Kani contract harness for the SCT content decode on the compiled code (bounded)",
+        verus=["sct", "sct_content"],
         standins=[dict(name="sct_lists", kind="bounded-execution", bound="lists of 0..5 well-formed SCTs in 3 shapes (minimal 49-byte entries, with extensions/signature, mixed)", payload={"sct_list_check": 1})],
-        kani=[dict(quick=["leaf_sct_entry", "leaf_sct_list_tiny", "shim_many0", "shim_map_parser", "shim_length_data"], thorough=["leaf_sct_list_short"], timeout=900, timeout_thorough=2400)],
+        kani=[dict(quick=["leaf_sct_entry", "leaf_sct_list_tiny", "shim_many0", "shim_map_parser", "shim_length_data", "shim_be64", "shim_be", "shim_take"], thorough=["leaf_sct_list_short"], timeout=900, timeout_thorough=2400)],
         explanation="see level_text",
     ),
     "C15": dict(
@@ -291,7 +292,7 @@ PROPS = {
         level_text="For each enumerated code point the property lists, the hosting function's contract contains the conjunct 'field == the raw integer at its offset' and the harness leaves that byte/word fully symbolic and unconstrained, so the conjunct is decided for all 256 / 65536 values: record type and version (fd_record_header, Verus frame), alert level/description (fd_msg_alert), heartbeat type, ClientHello/ServerHello versions, cipher-suite and compression ids, extension type (Verus dispatch_ext: Unknown(type, data) for every unrecognised type; leaf_ext_unknown), named groups, signature/hash algorithms, SNI name type, certificate-status type, PSK modes, EC point formats, CT version, key-update value, DTLS header fields. Complete in the field value; bounded in the length of the surrounding structure (except the Verus units, unbounded).",
         level_note="Certificate types of CertificateRequest are hosted by leaf_hs_certificate_request, which only runs in the thorough tier (768 s). No harness assumes anything about a listed field (assumption scan: vassume! is only applied to lengths/selectors).",
         technique="contract conjuncts over fully symbolic enumerated fields: Kani harnesses + Verus postconditions",
-        verus=["frame", "dispatch_ext", "ext_contents", "ext_lists2", "messages", "bodies", "hellos", "derived"],
+        verus=["frame", "dispatch_ext", "ext_contents", "ext_lists2", "messages", "bodies", "hellos", "derived", "sct_content"],
         kani=[dict(quick=["fd_record_header", "fd_raw_record_small", "fd_encrypted_small", "fd_msg_alert", "leaf_msg_heartbeat", "mod_client_hello", "leaf_cipher_suites", "leaf_compressions",
                           "leaf_hs_server_hello_msg", "leaf_hs_hello_retry_request", "leaf_ext_unknown", "leaf_named_groups", "leaf_ext_elliptic_curves", "leaf_ext_signature_algorithms",
                           "leaf_digitally_signed", "leaf_ext_sni", "leaf_ext_status_request", "leaf_hs_certificatestatus", "leaf_ext_psk_modes", "leaf_ext_ec_point_formats",
